@@ -1280,8 +1280,8 @@ namespace bluetoe {
                 : output_( output )
                 , end_( end )
                 , index_( details::handle_index_mapping< Server >::first_index_by_handle( starting_index ) )
-                , starting_index_( details::handle_index_mapping< Server >::first_index_by_handle( starting_handle ) )
-                , ending_index_( ending_handle )
+                , starting_handle_( starting_handle )
+                , ending_handle_( ending_handle )
                 , stoped_( false )
                 , first_( true )
                 , is_128bit_uuid_( true )
@@ -1293,9 +1293,10 @@ namespace bluetoe {
             template< typename Service >
             void each()
             {
-                if ( !stoped_
-                    && ( starting_index_ != details::invalid_attribute_index && starting_index_ <= index_ )
-                    && ( index_ <= ending_index_ || ending_index_ == details::invalid_attribute_index ) )
+                // a service is within the requested range, if the handle of its service declaration is
+                const std::uint16_t service_handle = details::handle_index_mapping< Server >::handle_by_index( index_ );
+
+                if ( !stoped_ && starting_handle_ <= service_handle && service_handle <= ending_handle_ )
                 {
                     if ( first_ )
                     {
@@ -1320,8 +1321,8 @@ namespace bluetoe {
                   std::uint8_t*&  output_;
                   std::uint8_t*   end_;
                   std::size_t     index_;
-            const std::size_t     starting_index_;
-            const std::size_t     ending_index_;
+            const std::uint16_t   starting_handle_;
+            const std::uint16_t   ending_handle_;
                   bool            stoped_;
                   bool            first_;
                   bool            is_128bit_uuid_;
@@ -1569,29 +1570,26 @@ namespace bluetoe {
         struct services_by_group
         {
             services_by_group( std::uint16_t starting_handle, std::uint16_t ending_handle, Iterator& iterator, const Filter& filter, bool& found )
-                : starting_index_( details::handle_index_mapping< Server >::first_index_by_handle( starting_handle ) )
-                , ending_index_( details::handle_index_mapping< Server >::first_index_by_handle( ending_handle ) )
+                : starting_handle_( starting_handle )
+                , ending_handle_( ending_handle )
                 , index_( 0 )
                 , iterator_( iterator )
                 , filter_( filter )
                 , found_( found )
             {
-                // if the ending_handle does not point to a specific handle, the last attribute befor that is ment.
-                if ( ending_index_ != details::invalid_attribute_index && details::handle_index_mapping< Server >::handle_by_index( ending_index_ ) != ending_handle )
-                {
-                    --ending_index_;
-                }
             }
 
             template< typename Service >
             void each()
             {
-                if ( ( starting_index_ != details::invalid_attribute_index && starting_index_ <= index_ )
-                    && ( index_ <= ending_index_ || ending_index_ == details::invalid_attribute_index ) )
+                using mapping = details::handle_index_mapping< Server >;
+
+                // a service is within the requested range, if the handle of its service declaration is
+                const std::uint16_t service_handle = mapping::handle_by_index( index_ );
+
+                if ( starting_handle_ <= service_handle && service_handle <= ending_handle_ )
                 {
                     const details::attribute& attr = Server::attribute_at( index_ );
-
-                    using mapping = details::handle_index_mapping< Server >;
 
                     if ( filter_( index_, attr ) )
                     {
@@ -1605,8 +1603,8 @@ namespace bluetoe {
                 index_ += Service::number_of_attributes;
             }
 
-            std::size_t     starting_index_;
-            std::size_t     ending_index_;
+            std::uint16_t   starting_handle_;
+            std::uint16_t   ending_handle_;
             std::size_t     index_;
             Iterator&       iterator_;
             const Filter&   filter_;
